@@ -179,7 +179,7 @@ def run(ctx, rep):
         nuse = 0
         for bi, bl in enumerate(eb.blocks):
             f = pf.get(bi) or frozenset()
-            decided = [x for x in f if x[0] == "is" and x[1] in ("Ok", "Err") and ("call:encode::join(" in str(x[2]) or "call:encode::encode_fixed_subframe(" in str(x[2]))]
+            decided = [x for x in f if x[0] == "is" and x[1] in ("Ok", "Err") and (re.search(r"call:(encode|rayon|rayon_core)::join\(", str(x[2])) or "call:encode::encode_fixed_subframe(" in str(x[2]))]
             if not decided:
                 continue
             for st_ in bl["s"]:
@@ -193,7 +193,7 @@ def run(ctx, rep):
                 nuse += 1
                 def mine(x):
                     d = str(x[2])
-                    if "call:encode::join(" in d:
+                    if re.search(r"call:(encode|rayon|rayon_core)::join\(", d):
                         return d.endswith(slot_of.get(rec, "#?"))
                     return rec == "fixed_output"
                 okk = any(x[1] == "Ok" and mine(x) for x in decided) and not any(x[1] == "Err" and mine(x) for x in decided)
